@@ -83,7 +83,7 @@ def gen_cases(tier, rng):
     else:
         wrapped = [(h, w) for h in HOSTS for w in WRAPPERS[1:]]
     for host, wrap in single + wrapped:
-        entries = ['expr', 'biogeme']
+        entries = ['expr', 'biogeme', 'biogeme_dict']      # biogeme_dict: the formula is the log likelihood entry of a DICTIONARY of formulas
         in_mc = host in IN_MC or wrap == 'mc_w'
         in_int = host in IN_INT or wrap == 'int_w'
         if host in IN_MC and wrap == 'mc_w':
@@ -424,7 +424,7 @@ def execute(case):
         return {'outcome': 'number', 'value': v}
 
     g = case['group']
-    if g in ('plant', 'valid', 'missing') and case['host'] != '-' and case['entry'] in ('expr', 'biogeme'):
+    if g in ('plant', 'valid', 'missing') and case['host'] != '-' and case['entry'] in ('expr', 'biogeme', 'biogeme_dict'):
         fault = case['fault']
         panel_outside = fault == 'var_outside_trajectory'
         ctx = Ctx(panel_outside=panel_outside,
@@ -450,7 +450,7 @@ def execute(case):
                     kw = {'gradient': False, 'hessian': which == 'hessian', 'bhhh': which == 'bhhh'}
                 r = e.get_value_and_derivatives(database=d, number_of_draws=4, aggregation=True, prepare_ids=True, **kw)
                 return r.function
-            bg = BIOGEME(d, e, parameters=params())
+            bg = BIOGEME(d, {'log_like': e} if case['entry'] == 'biogeme_dict' else e, parameters=params())
             return bg.calculate_likelihood(bg.id_manager.free_betas_values, scaled=False)
         out = outcome(run)
         if case['expect'] == 'value':
